@@ -127,12 +127,18 @@ def joinSp : List String → String
   | [a] => a
   | a :: b :: rest => a ++ " " ++ joinSp (b :: rest)
 
-/-- `" ".join([line.text for line in lines])`: a text that is not a string is a TypeError -/
+/-- the text a line contributes to the value of its cell: `None` is left out
+    (`if line.text is not None`); a text that is neither a string nor `None` makes `" ".join` raise -/
+def lineTextRes (l : Line) : Res (Option String) :=
+  match l.text with
+  | .str s => .ok (some s)
+  | .none => .ok none
+  | .other => .error .TypeError
+
+/-- `" ".join([line.text for line in lines if line.text is not None])` -/
 def cellValue (ls : List Line) : Res String := do
-  let ts ← ls.mapM (fun l => match l.text with
-    | .str s => (.ok s : Res String)
-    | _ => .error .TypeError)
-  return joinSp ts
+  let ts ← ls.mapM lineTextRes
+  return joinSp (ts.filterMap id)
 
 /-- `parse_table_cell` -/
 def parseCell (v : PyVal) : Res Cell :=
@@ -290,10 +296,11 @@ def cornerOfText (s : String) : Corner :=
     else .raw s
   | _ => .raw s
 
-def lineTextStr (l : Line) : String :=
+/-- the text of a line if it has one -/
+def lineTextOpt (l : Line) : Option String :=
   match l.text with
-  | .str s => s
-  | _ => ""
+  | .str s => some s
+  | _ => none
 
 def mirrorCell (c : SrcCell) : Cell :=
   let lines := c.lines.map mirrorLine
@@ -303,7 +310,7 @@ def mirrorCell (c : SrcCell) : Cell :=
     coords := some (boxOf c.coords)
     corner := c.corner.map (fun t => cornerOfText (X.strip t))
     lines := lines
-    value := joinSp (lines.map lineTextStr) }
+    value := joinSp (lines.filterMap lineTextOpt) }
 
 /-- `column_cells` of a row: the cells at their column positions, gaps filled with `None` -/
 def columnCellsOf (cells : List Cell) : List (Option Cell) :=
